@@ -116,6 +116,25 @@ pub fn run(ctx: &mut Ctx) -> Result<RunOut, Violation> {
     let spurious_budget = t.draw(if crate::core::deep() { 5 } else { 3 }) as u64;
     let overpoll = if focus == "C20" { 1 + t.draw(4) } else { t.draw(3) };
     let body_drop_at: Option<u32> = if focus == "C11" && t.chance(1, 2) { Some(t.draw(6)) } else { None };
+    // A backlog: before the consumer has polled once, the producer has already flushed K small
+    // pieces (a slow client behind a handler that flushes after every event). K comes from the
+    // source dictionary, the larger candidates as often as the smaller ones, so that a bound on
+    // the queue added by a change is reached and crossed while both threads are still running.
+    let backlog: usize = if t.chance(1, 16) {
+        let d = t.draw(1 << 16);
+        let k = if t.chance(1, 2) { crate::dict::pick_in(d, 300, 1100) } else { crate::dict::pick_in(d, 2, 299) };
+        k.unwrap_or(2 + (d % 40) as u64) as usize
+    } else {
+        0
+    };
+    let backlog_piece = if t.chance(1, 2) { 1 } else { (chunk / 3).max(1) };
+    // Half of the backlog runs go on as they began: the same small piece, flushed, a few more times.
+    if backlog > 0 && t.chance(1, 2) {
+        let m = 2 + t.draw(4);
+        prog = (0..m).flat_map(|_| [POp::Write(backlog_piece), POp::Flush]).collect();
+    }
+    // (every sync flush of a gzip stream adds a dozen bytes: keep the number of frames bounded)
+    let backlog = if gzip { backlog.min(60 * chunk) } else { backlog };
     let trace = ctx.tracing();
 
     // Build the pair on the controlling thread (no scheduler installed yet).
@@ -126,12 +145,30 @@ pub fn run(ctx: &mut Ctx) -> Result<RunOut, Violation> {
     let req = rb.body(()).unwrap();
     let (resp, w) = http_serve::streaming_body(&req).with_chunk_size(chunk).with_gzip_level(level).build::<SimData, SimError>();
     let is_gzip = resp.headers().contains_key("content-encoding");
-    let w = w.expect("GET has a writer");
+    let mut w = w.expect("GET has a writer");
     let body: std::pin::Pin<Box<SimBody>> = Box::pin(resp.into_body());
 
     let tape = std::mem::replace(&mut ctx.tape, Tape::replay(Vec::new()));
     let sched = Sched::new(tape, 2, trace);
     let pout = Arc::new(Mutex::new(ProducerOut::default()));
+    if backlog > 0 {
+        ctx.stats.bump("runs_with_a_backlog");
+        ctx.stats.add("backlog_flushes", backlog as u64);
+        let mut o = pout.lock().unwrap();
+        for _ in 0..backlog {
+            let p0 = o.accepted.len() as u64;
+            let buf: Vec<u8> = (0..backlog_piece as u64).map(|i| ebyte(seed, p0 + i)).collect();
+            if w.write_all(&buf).is_err() || w.flush().is_err() {
+                if !matches!(focus, "C08" | "C09" | "C11") {
+                    ctx.stats.bump("runs_cut_short_by_a_failing_backlog_(reported_by_C08)");
+                    return Ok(RunOut { sig: 0, nontrivial: false });
+                }
+                return violation(focus_static(focus), "backlog-write-or-flush-failed", format!("chunk={chunk} gzip={is_gzip}: write_all({backlog_piece}) + flush failed on a live body after {} flushed pieces nobody had read yet", o.accepted.len() / backlog_piece));
+            }
+            o.accepted.extend_from_slice(&buf);
+            o.flushed = o.accepted.len();
+        }
+    }
     let cout = Arc::new(Mutex::new(ConsumerOut::default()));
 
     // ---------------- producer thread
@@ -289,7 +326,7 @@ pub fn run(ctx: &mut Ctx) -> Result<RunOut, Violation> {
                     let mut spurious_left = spurious_budget;
                     let mut extra_left = overpoll;
                     loop {
-                        if polls >= 400 {
+                        if polls >= 400 + backlog * (3 + (backlog_piece + 16) / chunk) {
                             cout.lock().unwrap().log.too_many_polls = true;
                             break;
                         }
@@ -507,7 +544,9 @@ pub fn run(ctx: &mut Ctx) -> Result<RunOut, Violation> {
                 // by a wake shows up as a lost wake-up, one that repeats as unbounded polls.
                 ctx.stats.bump("c10_pending_after_writer_gone_(woken_later)");
             }
-            if c.polls_after_writer_gone as usize > c.log.steps.len().min(64) + 8 {
+            // (with a backlog every queued chunk is one more legitimate poll after the writer went)
+            let data_steps = c.log.steps.iter().filter(|(_, s)| matches!(s, Step::Data(_))).count();
+            if c.polls_after_writer_gone as usize > if backlog == 0 { c.log.steps.len().min(64) + 8 } else { data_steps + 72 } {
                 return violation("C10", "unbounded-polls", describe(&st));
             }
             if c.body_dropped_seq.is_none() {
